@@ -31,7 +31,7 @@ type step struct {
 var neoKinds = []string{
 	"ont-transfer", "ont-transfer-unsigned", "ont-transfer-user", "ong-transfer", "ont-approve",
 	"ong-transferfrom", "ont-balanceof", "neo-put", "neo-put-empty", "neo-destroy", "neo-dead",
-	"neo-create", "param-set", "param-snapshot", "neo-garbage", "neo-empty", "neo-loop", "wasm-invoke",
+	"neo-create", "param-set", "param-snapshot", "param-set-snapshot", "neo-garbage", "neo-empty", "neo-loop", "wasm-invoke",
 }
 var deployKinds = []string{"deploy-neo", "deploy-wasm", "deploy-neo-wasm-magic"}
 var eipKinds = []string{
@@ -144,6 +144,19 @@ func (c *chain) mkTx(kind string, a uint64) (*built, error) {
 	case "param-set":
 		ps := []global_params.Param{{Key: "Deploy.Code.Gas", Value: fmt.Sprint(1 + a%999999)}, {Key: "c42", Value: "x"}}
 		t, err := c.nativeTx(nutils.ParamContractAddress, "setGlobalParam", []interface{}{ps}, k.Acct)
+		return wrap(t, err, true)
+	case "param-set-snapshot":
+		// one transaction: set a gas parameter, then make it current
+		ps := []global_params.Param{{Key: "Deploy.Code.Gas", Value: fmt.Sprint(1 + a%999999)}}
+		c1, err := cutils.BuildNativeInvokeCode(nutils.ParamContractAddress, 0, "setGlobalParam", []interface{}{ps})
+		if err != nil {
+			return nil, err
+		}
+		c2, err := cutils.BuildNativeInvokeCode(nutils.ParamContractAddress, 0, "createSnapshot", []interface{}{})
+		if err != nil {
+			return nil, err
+		}
+		t, err := c.signedInvoke(append(c1, c2...), k.Acct, 0, 20000)
 		return wrap(t, err, true)
 	case "param-snapshot":
 		t, err := c.nativeRaw(nutils.ParamContractAddress, "createSnapshot", []byte{}, k.Acct)
